@@ -25,6 +25,7 @@ RULE = (
     "over the corpus at every callback boundary (2 variants) + pause-during-wait and double-suspension slices; Hypothesis "
     "profile 'suspend'. Non-trivial: at least one motor had been moved and the replay cache was non-empty at the trip. "
     "Distinct = canonical JSON."
+    " Also a real suspender (SuspendBoolHigh/Low, 0.5 s settle time) installed on the engine with a flapping watched signal at every third callback boundary: no plan message may execute while the suspender's documented condition holds the plan."
 )
 ASSUMPTIONS = ["requests arrive at boundaries between event-loop callbacks", "release = asyncio.Event.set at a harness-recorded virtual time"]
 
